@@ -109,10 +109,21 @@ pub fn preseal_melmint<C: ContentAddrStore>(state: UnsealedState<C>) -> Unsealed
     process_pegging(state)
 }
 
+/// The pool that a transaction's data names. Only the canonical spelling of a pool key names a pool: the
+/// long form can also spell a key with its two sides reversed or equal, which would address the stored
+/// state of another pool (or none) with the roles of the two denominations confused.
+fn request_pool_key(data: &[u8]) -> Option<PoolKey> {
+    let key = PoolKey::from_bytes(data)?;
+    if key.left() == key.right() {
+        return None;
+    }
+    (PoolKey::new(key.left(), key.right()) == key).then_some(key)
+}
+
 fn extract_pool_keys_sorted(transactions: &mut [Transaction]) -> Vec<PoolKey> {
     transactions
         .iter()
-        .filter_map(|tx| PoolKey::from_bytes(&tx.data))
+        .filter_map(|tx| request_pool_key(&tx.data))
         .collect::<Vec<_>>()
         .pipe(|mut v| {
             v.sort();
@@ -124,7 +135,7 @@ fn extract_pool_keys_sorted(transactions: &mut [Transaction]) -> Vec<PoolKey> {
 fn transactions_for_pool(transactions: &[Transaction], pool_key: &PoolKey) -> Vec<Transaction> {
     transactions
         .iter()
-        .filter(|tx| Some(pool_key) == PoolKey::from_bytes(&tx.data).as_ref())
+        .filter(|tx| Some(pool_key) == request_pool_key(&tx.data).as_ref())
         .cloned()
         .collect()
 }
@@ -242,7 +253,7 @@ fn get_swap_transactions<C: ContentAddrStore>(state: &UnsealedState<C>) -> Vec<T
             (tx.kind == TxKind::Swap).then_some(())?; // only swap transactions are swap requests
             (!tx.outputs.is_empty()).then_some(())?; // ensure not empty
             state.coins.get_coin(tx.output_coinid(0))?; // ensure that first output is unspent
-            let pool_key = PoolKey::from_bytes(&tx.data)?; // ensure that data contains a pool key
+            let pool_key = request_pool_key(&tx.data)?; // ensure that data contains a pool key
             state.pools.get(&pool_key)?; // ensure that pool key points to a valid pool
             (tx.outputs[0].denom == pool_key.left() || tx.outputs[0].denom == pool_key.right())
                 .then_some(())?; // ensure that the first output is either left or right
@@ -352,7 +363,7 @@ fn get_deposit_transactions<C: ContentAddrStore>(state: &UnsealedState<C>) -> Ve
                 && state.coins.get_coin(tx.output_coinid(0)).is_some()
                 && state.coins.get_coin(tx.output_coinid(1)).is_some())
             .then_some(())?;
-            let pool_key = PoolKey::from_bytes(&tx.data)?;
+            let pool_key = request_pool_key(&tx.data)?;
             (tx.outputs[0].denom == pool_key.left() && tx.outputs[1].denom == pool_key.right())
                 .then_some(tx)
         })
@@ -437,7 +448,7 @@ fn get_withdrawal_transactions<C: ContentAddrStore>(state: &UnsealedState<C>) ->
                 && tx.outputs.len() == 1
                 && state.coins.get_coin(tx.output_coinid(0)).is_some())
             .then_some(())?;
-            let pool_key = PoolKey::from_bytes(&tx.data)?;
+            let pool_key = request_pool_key(&tx.data)?;
             state.pools.get(&pool_key)?;
             (tx.outputs[0].denom == pool_key.liq_token_denom()).then_some(tx)
         })
